@@ -684,7 +684,7 @@ fn fault_kinds(tier: &str) -> (Vec<String>, Vec<String>) {
     let mut sec: Vec<String> = vec![];
     for s in [
         "truncopen:1", "truncopennl", "trunchalf", "exit1quiet", "garbage:1", "garbage:2", "garbage:3", "garbage:4", "garbage:5", "garbage:6", "garbage:7",
-        "garbage:8", "garbage:9", "garbage:10", "garbage:11", "garbage:12", "pad", "replyexit0", "replyexit1", "errorexit:20", "unknowntrunc",
+        "garbage:8", "garbage:9", "garbage:10", "garbage:11", "garbage:12", "pad", "replyexit0", "replyexit1", "errorexit:20", "unknowntrunc", "errormultiline",
         // message with quotes inside; z3's real duplicate-definition message; a 2-byte character that the slice cuts in half
         "errortext:named \"x\" already defined", "errortext:line 9 column 54: named expression already defined", "errortext:a\u{e9}bcdef",
         // a message containing an opening parenthesis: count_parens does not know about string literals
